@@ -177,3 +177,44 @@ func c14LoopCycles(c *Ctx, r *Report) {
 	}
 	r.Floor("R14.11", "loop executors found through their AST node type", found, 3)
 }
+
+// c14CallBoundary (R14.12): a call site consumes the callee's return.
+func c14CallBoundary(c *Ctx, r *Report) {
+	r.Rule("R14.12", "a return stops at the call: every interpreter function that opens a new frame set (PushStackFrameSet — the boundary of a user-defined function or subroutine call) and itself has a (*BlockExitPayload, error) result returns a nil payload on every path: the callee's return-payload must not travel on into the caller's block, where it would end that block too")
+	n := 0
+	for _, fn := range c.ModuleFunctions() {
+		if fn.Blocks == nil || fn.Pkg == nil || !strings.HasSuffix(fn.Pkg.Pkg.Path(), "/pkg/dsl/cst") {
+			continue
+		}
+		res := fn.Signature.Results()
+		if res.Len() != 2 || !strings.HasSuffix(res.At(0).Type().String(), "BlockExitPayload") {
+			continue
+		}
+		pushes := false
+		for _, b := range fn.Blocks {
+			for _, in := range b.Instrs {
+				if call, ok := in.(ssa.CallInstruction); ok && strings.HasSuffix(CalleeName(call.Common()), "Stack.PushStackFrameSet") {
+					pushes = true
+				}
+			}
+		}
+		if !pushes {
+			continue
+		}
+		n++
+		bad := ""
+		for _, b := range fn.Blocks {
+			ret, ok := b.Instrs[len(b.Instrs)-1].(*ssa.Return)
+			if !ok || len(ret.Results) == 0 || b == fn.Recover {
+				continue
+			}
+			v := unspillResult(ret, ret.Results[0])
+			if k, isConst := v.(*ssa.Const); !isConst || !k.IsNil() {
+				bad = c.Rel(ret.Pos())
+			}
+		}
+		r.Check(bad == "", "R14.12", SSAName(fn), c.Rel(fn.Pos()), "returns a nil payload on every path",
+			fmt.Sprintf("%s opens a frame set for a call and returns a non-nil block-exit payload at %s: the callee's 'return' goes on into the caller's block and ends it (the statements after the call are skipped)", SSAName(fn), bad))
+	}
+	r.Floor("R14.12", "call boundaries with a block-exit result", n, 1)
+}
